@@ -6,10 +6,12 @@ package worker
 // unforced goroutines on one session), "idle" (the one 408 poll).
 
 import (
+	"encoding/base64"
 	"encoding/json"
 	"fmt"
 	"math/rand"
 	"net/http"
+	"strconv"
 	"strings"
 	"sync"
 	"sync/atomic"
@@ -39,6 +41,12 @@ type c12Case struct {
 	// hist: after a backend close, polls are only issued once the agent has
 	// noticed the close (its connection is torn down), not right behind it
 	Settle bool `json:"settle,omitempty"`
+	// body: one call to Endpoint with the raw body B64 (Label names it), in State
+	// none | one-open | open-and-closed
+	Endpoint string `json:"endpoint,omitempty"`
+	B64      string `json:"b64,omitempty"`
+	Label    string `json:"label,omitempty"`
+	State    string `json:"state,omitempty"`
 }
 
 type c12Spec struct {
@@ -132,6 +140,8 @@ func c12Main(specBytes []byte) {
 				x.batch()
 			case "noread":
 				x.noread()
+			case "body":
+				x.body()
 			}
 			x.res.Ms = time.Since(t0).Milliseconds()
 			Emit(x.res)
@@ -1261,4 +1271,87 @@ func (x *c12Exec) noread() {
 	}
 	x.b.forget(s.token)
 	x.probe("push-only backend script " + strings.Join(x.c.Ops, ","))
+}
+
+// ------------------------------------------------------------ body alphabet
+
+// body sends one request with an arbitrary body (bare JSON values, nulls,
+// wrong-typed ids, deep nesting, huge strings, invalid UTF-8 ...) to one
+// endpoint. It must be answered (200/400/408/500) without a panic; on data,
+// poll and close a body that names no usable session id has to be rejected
+// with 400 (the corpus holds no id of a live session; an empty data batch
+// names nothing and is only held to the answer set). The sessions that were
+// open before must still work afterwards.
+func (x *c12Exec) body() {
+	raw, err := base64.StdEncoding.DecodeString(x.c.B64)
+	if err != nil {
+		x.res.Skipped++
+		return
+	}
+	var live *c12Sess
+	if x.c.State != "none" {
+		live, _ = x.open()
+		if live == nil {
+			x.res.Skipped++
+			return
+		}
+		if x.c.State == "open-and-closed" {
+			if s2, _ := x.open(); s2 != nil {
+				c := x.call("close", "close(set-up)", "", nil, shimIDBody(s2.id))
+				if c.Answered && c.Status == 200 {
+					x.checkBackendClosed(s2, "body case set-up")
+				}
+				x.b.forget(s2.token)
+			}
+		}
+	}
+	ep := x.c.Endpoint
+	reject := ""
+	if ep == "poll" || ep == "close" {
+		reject = "no-usable"
+	} else if ep == "data" {
+		if t := strings.TrimSpace(string(raw)); t != "null" && t != "[]" {
+			reject = "no-usable"
+		}
+	}
+	var hdr [][2]string
+	token := ""
+	if ep == "open" {
+		x.nTok++
+		token = fmt.Sprintf("%s-%d", x.c.ID, x.nTok)
+		hdr = [][2]string{{"X-Verif-Conn", token}, {"X-Websocket-Shim-Version", "1"}}
+	}
+	label := fmt.Sprintf("%s with body %s (%s)", ep, x.c.Label, shimTrunc(strconv.Quote(string(raw)), 60))
+	a := x.callNamed(ep, ep+"-body", label, "", hdr, raw)
+	x.step(c12Step{Op: ep, Target: x.c.Label, Status: a.Status, Ms: a.ms()})
+	x.res.Statuses = fmt.Sprintf("%d", a.Status)
+	if a.Answered && reject != "" && a.Status != 400 {
+		x.violate(fmt.Sprintf("C12:body-without-session-id-answered-%d:%s", a.Status, ep), fmt.Sprintf("%s names no usable session id and must be rejected with 400, got %d %s", label, a.Status, shimTrunc(string(a.Body), 100)))
+	}
+	if ep == "open" && a.Answered && a.Status == 200 {
+		var r shimOpenResp
+		if json.Unmarshal(a.Body, &r) == nil && r.ID != "" {
+			c := x.call("close", "close(session opened by the body case)", "", nil, shimIDBody(r.ID))
+			if bc := x.b.conn(token); bc != nil && c.Answered && c.Status == 200 {
+				x.checkBackendClosed(&c12Sess{id: r.ID, bc: bc}, "body case")
+			}
+		}
+		x.b.forget(token)
+	}
+	if live != nil { // the bystander session is unharmed
+		d := x.call("data", fmt.Sprintf("data(session %s, open before the odd body)", live.id), "", nil, c12DataBody(live.id, "still here"))
+		if d.Answered && d.Panic == "" {
+			if d.Status != 200 {
+				x.violate("C12:bystander-session-disturbed", fmt.Sprintf("after %s, data on the session that was open all along answered %d", label, d.Status))
+			} else if !live.bc.waitRecv(func(r []shimMsg) bool { return len(r) >= 1 }, 10*time.Second*time.Duration(c12Scale)) {
+				x.violate("C12:bystander-session-disturbed", fmt.Sprintf("after %s, a message posted on the session that was open all along did not reach its backend within 10s", label))
+			}
+		}
+		c := x.call("close", fmt.Sprintf("close(session %s, wind-down)", live.id), "", nil, shimIDBody(live.id))
+		if c.Answered && c.Status == 200 {
+			x.checkBackendClosed(live, "body case wind-down")
+		}
+		x.b.forget(live.token)
+	}
+	x.probe(label)
 }
